@@ -6,8 +6,8 @@ the controller queries the writer's bucket and inspects the WAL file of the real
 PROPS = ["C07"]
 READY = True
 CLAIMS = {
- "C07": dict(technique="TLC model checking of Writers.tla (3 writers x WAL loop incl. timer flushes, one action per hook-to-hook segment) + TLC behaviours forced on the real goroutines by a gate player at the verifhook points, with a query and a WAL inspection at the instant each WriteCSM returns",
-             text="Writers.tla is model-checked exhaustively: without the deviation every returned writer's data is fsynced and visible (AckImpliesSyncedAndVisible) and no waiter is lost; with the listed deviation EarlyReturn TLC produces the violating schedules. TLC-generated behaviours (half of them chosen among those in which a writer returns early) are executed by the real RequestFlush / SyncWAL / FlushToWAL goroutines in exactly TLC's order (each goroutine parks at the hook points and is released by the controller; a schedule the real code cannot follow is reported as drift, never as a violation); when a writer's WriteCSM returns success the controller immediately queries its bucket through the real query path and searches the real WAL file for its record.",
+ "C07": dict(technique="TLC model checking of Writers.tla (3 writers x WAL loop incl. timer flushes, one action per hook-to-hook segment) + TLC behaviours forced on the real goroutines by a gate player at the verifhook points, with a query and a WAL search issued by the writer's own goroutine right after WriteCSM returns + TLC trace validation (Writers_Trace.tla) of free-running executions of four writers and the real SyncWAL loop recorded at the hook points",
+             text="Writers.tla is model-checked exhaustively: without the deviation every returned writer's data is fsynced and visible (AckImpliesSyncedAndVisible) and no waiter is lost; with the listed deviation EarlyReturn TLC produces the violating schedules. TLC-generated behaviours (half of them chosen among those in which a writer returns early) are executed by the real RequestFlush / SyncWAL / FlushToWAL goroutines in exactly TLC's order (each goroutine parks at the hook points and is released by the controller; a schedule the real code cannot follow is reported as drift, never as a violation); when a writer's WriteCSM returns success the controller immediately queries its bucket through the real query path and searches the real WAL file for its record (in the writer's own goroutine, so a schedule the code does not follow still decides). Free-running executions (4 writers x 3-5 requests, loop at 1-5 ms) are recorded as one ordered log of hook points and validated by TLC against Writers_Trace.tla, in which every channel operation is an internal step between its two bracketing events and the property guards the return event: a trace that is explainable only without the guard is a violation; an early return is accepted under the guard only if the internal read of len(flushChannel) saw a queued request (the known deviation).",
              note="Interleavings = interleavings of the hook points; timer flushes are explored in the model only; fsync completion is inferred from the Flush.synced hook point having been passed before the return."),
 }
 
